@@ -155,6 +155,32 @@ theorem condition_false_terminates_running (as rest : List Act)
   · exact Or.inl h
   · exact Or.inr (Or.inl h)
 
+/-- A requested reset is honoured by a new epoch: for a filter that is asked to run, not torn
+down, with no `reboot()` in progress and the thread not already leaving, as long as the run
+condition holds the thread reaches `initialization_step()` within 13 of its own moves, and its
+next move is that initialisation.  (Fairness: the thread is scheduled; stated for the thread
+running alone.) -/
+theorem reset_leads_to_init (as : List Act)
+    (hreset : (runAll Cfg.current as).reset = true) (hrun : (runAll Cfg.current as).run = true)
+    (htd : (runAll Cfg.current as).teardown = false) (hmid : (runAll Cfg.current as).mid = false)
+    (h1 : (runAll Cfg.current as).pc ≠ PC.preFinal) (h2 : (runAll Cfg.current as).pc ≠ PC.done) :
+    ∃ m, m ≤ 13 ∧ (runAll Cfg.current (as ++ List.replicate m (Act.t true))).pc = PC.preInit ∧
+      ∃ h, (runAll Cfg.current (as ++ List.replicate m (Act.t true) ++ [Act.t true])).hist = Ev.init :: h := by
+  have hR : Resetting (runAll Cfg.current as) :=
+    ⟨nolost_all _ as, hrun, htd, hmid, h1, h2, Or.inl hreset⟩
+  have hv : vInit (runAll Cfg.current as).pc ≤ 13 := by
+    generalize (runAll Cfg.current as).pc = pc
+    cases pc <;> simp [vInit]
+  obtain ⟨m, hm, hpc⟩ := reset_leads_to_init_from 13 _ hR hv
+  refine ⟨m, hm, by rw [runAll, exec_append]; exact hpc, ?_⟩
+  rw [runAll, exec_append, exec_append]
+  simp only [runAll] at hpc
+  generalize exec Cfg.current (exec Cfg.current St.boot as) (List.replicate m (Act.t true)) = s at hpc
+  obtain ⟨pc, run, reset, td, stp, woken, mid, joined, hist⟩ := s
+  have hpc' : pc = PC.preInit := hpc
+  subst hpc'
+  exact ⟨hist, by simp [exec, step, thr]⟩
+
 /-! ## After the join -/
 
 /-- `wait()` returns only after the thread has ended; from then on, whatever is done, no
